@@ -146,7 +146,13 @@ def check(ctx):
     # ---------------- R3
     ctx.rule("C04.R3", "serialize(v) is serialize(Any, v) and Any dispatches on the runtime class through the same factory", floor=2)
     se = model.func(f"{SER}.serialize")
-    ok = any(isinstance(n, ast.If) and norm(n.test) == "obj is NO_OBJ" and any(norm(s) == "type, obj = (Any, type)" for s in n.body) for n in walk_no_nested(se.node))
+    def _rebinds(body) -> bool:
+        """(type, obj) <- (Any, type): one tuple assignment (either order of the pairs), or `obj = type` followed by `type = Any`"""
+        texts = [norm(s_) for s_ in body]
+        if any(t_ in ("type, obj = (Any, type)", "obj, type = (type, Any)") for t_ in texts):
+            return True
+        return "obj = type" in texts and "type = Any" in texts and texts.index("obj = type") < texts.index("type = Any")
+    ok = any(isinstance(n, ast.If) and norm(n.test) == "obj is NO_OBJ" and _rebinds(n.body) for n in walk_no_nested(se.node))
     ctx.check(ok, "C04.R3", se.qualname, se.node.body[0], "serialize(obj) no longer rebinds (type, obj) = (Any, type)", se, se.node, detail="type, obj = Any, type")
     am = model.func(f"{SMETH}.AnyMethod.serialize")
     ok = any(isinstance(n, ast.Call) and norm(n.func) == "self.factory" and n.args and norm(n.args[0]) == "obj.__class__" for n in walk_no_nested(am.node))
